@@ -11,6 +11,9 @@
        get:<o>:<g>                  an accessor/serialiser returned a slice/array (new caller buffer)
        append:<o>:<g>:<cv>          an append helper wrote into caller buffer cv (new caller buffer)
        share:<o>                    a re-stamped / derived copy (new object)
+       codec:<o|->                  the caller wraps object o in a DataMessageCodec (- = zero value); slot #k counts up
+       unmarshal:<k>:<cv>:<A|T>:<skip>:<hl>   slot k's UnmarshalBinary(buffer cv): copying decode into a FRESH object, slot re-pointed
+       build:<o>                    a DataMessageBuilder derived from o builds a fresh message (new object)
        obs:<o>                      observation point
      after the bar, for every obs in order: two bits "c0c1" = did the value observations / the
      serialised bytes of that object differ from those at its creation. The model computes the same
@@ -32,31 +35,36 @@ let check _ln line =
   let (lhs, rhs) = split_bar line in
   match split_ws lhs with
   | "T" :: toks ->
-    let st = ref init in
+    let cst = ref cinit in
+    let base p = cst := cstep !cst (CBase p) in
     let created : (int * (z list * z list)) list ref = ref [] in   (* object -> observation at creation *)
     let nobj = ref 0 in
     let flags = ref [] in
     let note_new_objects () =
-      let all = obs_all !st in
+      let all = obs_all (!cst).cs_st in
       let n = List.length all in
       List.iteri (fun i o -> if i >= !nobj then created := (i, o) :: !created) all;
       nobj := n in
     List.iter (fun tok ->
         match String.split_on_char ':' tok with
-        | ["new"; h] -> st := step !st (ONew (zbytes_of_hex h))
-        | ["write"; cv; i; v] -> st := step !st (OWrite (ni cv, ni i, z_of_string v))
+        | ["new"; h] -> base (ONew (zbytes_of_hex h))
+        | ["write"; cv; i; v] -> base (OWrite (ni cv, ni i, z_of_string v))
         | [("construct" | "constructm") as kw; cvs] ->
           let l = if cvs = "" then [] else List.map ni (String.split_on_char ',' cvs) in
-          st := step !st (OConstruct (l, kw = "constructm")); note_new_objects ()
-        | ["decode"; cv; k; skip; hl] -> st := step !st (ODecode (ni cv, kind_of k, ni skip, ni hl)); note_new_objects ()
-        | ["owned"; cv; k; skip; hl] -> st := step !st (ODecodeOwned (ni cv, kind_of k, ni skip, ni hl)); note_new_objects ()
-        | ["get"; o; g] -> st := step !st (OGet (ni o, ni g))
-        | ["append"; o; g; cv] -> st := step !st (OAppend (ni o, ni g, ni cv))
-        | ["share"; o] -> st := step !st (OShare (ni o)); note_new_objects ()
+          base (OConstruct (l, kw = "constructm")); note_new_objects ()
+        | ["decode"; cv; k; skip; hl] -> base (ODecode (ni cv, kind_of k, ni skip, ni hl)); note_new_objects ()
+        | ["owned"; cv; k; skip; hl] -> base (ODecodeOwned (ni cv, kind_of k, ni skip, ni hl)); note_new_objects ()
+        | ["get"; o; g] -> base (OGet (ni o, ni g))
+        | ["append"; o; g; cv] -> base (OAppend (ni o, ni g, ni cv))
+        | ["share"; o] -> base (OShare (ni o)); note_new_objects ()
+        | ["codec"; o] -> cst := cstep !cst (CCodec (if o = "-" then None else Some (ni o)))
+        | ["unmarshal"; k; cv; kd; skip; hl] ->
+          cst := cstep !cst (CUnmarshal (ni k, ni cv, kind_of kd, ni skip, ni hl)); note_new_objects ()
+        | ["build"; o] -> cst := cstep !cst (CBuild (ni o)); note_new_objects ()
         | ["obs"; o] ->
           let o = int_of_string o in
           let (b0, b1) = (try List.assoc o !created with Not_found -> failwith "obs of an unknown object") in
-          let n0 = obs !st (nat_of_int o) O and n1 = obs !st (nat_of_int o) (S O) in
+          let n0 = obs (!cst).cs_st (nat_of_int o) O and n1 = obs (!cst).cs_st (nat_of_int o) (S O) in
           flags := ((if n0 = b0 then "0" else "1") ^ (if n1 = b1 then "0" else "1")) :: !flags
         | _ -> failwith ("op: " ^ tok)) toks;
     let model = String.concat " " (List.rev !flags) in
